@@ -11,184 +11,203 @@ import json
 import os
 import sys
 
-ROOT = os.path.dirname(os.path.dirname(os.path.abspath(__file__)))
-pid, tier, seed, wall, res = sys.argv[1], sys.argv[2], int(sys.argv[3]), float(sys.argv[4]), sys.argv[5]
-variants = sys.argv[6:]
+import traceback
 
-meta = json.load(open(os.path.join(ROOT, "tools", "props_meta.json")))[pid]
-known = json.load(open(os.path.join(ROOT, "known_findings.json")))
-known_sigs = {k["signature"]: k for k in known["findings"] if k["property"] == pid and k["status"] == "known"}
 
-inconclusive = []
-runs = {}
-for v in variants:
-    path = os.path.join(res, "%s.%s.json" % (pid, v))
-    rc_path = os.path.join(res, "%s.%s.rc" % (pid, v))
-    rc = None
-    if os.path.exists(rc_path):
+def main():
+    ROOT = os.path.dirname(os.path.dirname(os.path.abspath(__file__)))
+    pid, tier, seed, wall, res = sys.argv[1], sys.argv[2], int(sys.argv[3]), float(sys.argv[4]), sys.argv[5]
+    variants = sys.argv[6:]
+
+    meta = json.load(open(os.path.join(ROOT, "tools", "props_meta.json")))[pid]
+    known = json.load(open(os.path.join(ROOT, "known_findings.json")))
+    known_sigs = {k["signature"]: k for k in known["findings"] if k["property"] == pid and k["status"] == "known"}
+
+    inconclusive = []
+    runs = {}
+    for v in variants:
+        path = os.path.join(res, "%s.%s.json" % (pid, v))
+        rc_path = os.path.join(res, "%s.%s.rc" % (pid, v))
+        rc = None
+        if os.path.exists(rc_path):
+            try:
+                rc = int(open(rc_path).read().strip())
+            except ValueError:
+                rc = None
+        if not os.path.exists(path):
+            why = "watchdog" if rc in (124, 137) else "no-result(rc=%s)" % rc
+            inconclusive.append("%s:%s" % (v, why))
+            continue
         try:
-            rc = int(open(rc_path).read().strip())
-        except ValueError:
-            rc = None
-    if not os.path.exists(path):
-        why = "watchdog" if rc in (124, 137) else "no-result(rc=%s)" % rc
-        inconclusive.append("%s:%s" % (v, why))
-        continue
-    try:
-        runs[v] = json.load(open(path))
-    except Exception as ex:  # noqa
-        inconclusive.append("%s:unreadable-result" % v)
-# extra stages (sanitizers / Miri / fuzz) write <ID>.x-<stage>.json
-for path in sorted(glob.glob(os.path.join(res, "%s.x-*.json" % pid))):
-    name = os.path.basename(path)[len(pid) + 1:-5]
-    try:
-        runs[name] = json.load(open(path))
-    except Exception:
-        inconclusive.append("%s:unreadable-result" % name)
+            runs[v] = json.load(open(path))
+        except Exception as ex:  # noqa
+            inconclusive.append("%s:unreadable-result" % v)
+    # extra stages (sanitizers / Miri / fuzz) write <ID>.x-<stage>.json
+    for path in sorted(glob.glob(os.path.join(res, "%s.x-*.json" % pid))):
+        name = os.path.basename(path)[len(pid) + 1:-5]
+        try:
+            runs[name] = json.load(open(path))
+        except Exception:
+            inconclusive.append("%s:unreadable-result" % name)
 
-evaluations = 0
-distinct = 0
-samples = []
-violations = {}
-per_variant = {}
-exhaustive_parts = []
-notes = []
-counters = {}
-cover = {}
-for v, r in runs.items():
-    evaluations += r.get("evaluations", 0)
-    distinct = max(distinct, r.get("distinct_nontrivial", 0))
-    for s in r.get("samples", []):
-        if len(samples) < 8 and s not in samples:
-            samples.append(s)
-    per_variant[v] = {
-        "evaluations": r.get("evaluations", 0),
-        "distinct_nontrivial": r.get("distinct_nontrivial", 0),
-        "wall_s": r.get("wall_s", 0),
-        "violations": len(r.get("violations", [])),
-    }
-    for e in r.get("exhaustive_parts", []):
-        if e not in exhaustive_parts:
-            exhaustive_parts.append(e)
-    for n in r.get("notes", []):
-        if n not in notes:
-            notes.append(n)
-    for k, val in r.get("counters", {}).items():
-        counters[k] = counters.get(k, 0) + val
-    for k, val in r.get("cover", {}).items():
-        if isinstance(val, list):
-            cover.setdefault(k, set()).update(val)
-        else:
-            cover[k] = max(cover.get(k, 0), val) if not isinstance(cover.get(k), set) else cover[k]
-    for i in r.get("inconclusive", []):
-        inconclusive.append("%s:%s" % (v, i))
-    for viol in r.get("violations", []):
-        sig = viol["signature"]
-        if sig not in violations:
-            violations[sig] = dict(viol, variant=v, variants=[v])
-        else:
-            violations[sig]["count"] += viol["count"]
-            violations[sig]["variants"].append(v)
+    evaluations = 0
+    distinct = 0
+    samples = []
+    violations = {}
+    per_variant = {}
+    exhaustive_parts = []
+    notes = []
+    counters = {}
+    cover = {}
+    for v, r in runs.items():
+        evaluations += r.get("evaluations", 0)
+        distinct = max(distinct, r.get("distinct_nontrivial", 0))
+        for s in r.get("samples", []):
+            if len(samples) < 8 and s not in samples:
+                samples.append(s)
+        per_variant[v] = {
+            "evaluations": r.get("evaluations", 0),
+            "distinct_nontrivial": r.get("distinct_nontrivial", 0),
+            "wall_s": r.get("wall_s", 0),
+            "violations": len(r.get("violations", [])),
+        }
+        for e in r.get("exhaustive_parts", []):
+            if e not in exhaustive_parts:
+                exhaustive_parts.append(e)
+        for n in r.get("notes", []):
+            if n not in notes:
+                notes.append(n)
+        for k, val in r.get("counters", {}).items():
+            counters[k] = counters.get(k, 0) + val
+        for k, val in r.get("cover", {}).items():
+            cur = cover.get(k)
+            if isinstance(val, list) and (cur is None or isinstance(cur, set)):
+                cover.setdefault(k, set()).update(val)
+            else:
+                # large sets are reported by size only: keep the largest size seen
+                a = len(cur) if isinstance(cur, set) else (cur or 0)
+                b = len(val) if isinstance(val, list) else val
+                cover[k] = max(a, b)
+        for i in r.get("inconclusive", []):
+            inconclusive.append("%s:%s" % (v, i))
+        for viol in r.get("violations", []):
+            sig = viol["signature"]
+            if sig not in violations:
+                violations[sig] = dict(viol, variant=v, variants=[v])
+            else:
+                violations[sig]["count"] += viol["count"]
+                violations[sig]["variants"].append(v)
 
-# C19: the per-section transcript hashes must be identical in every build variant
-for k, val in list(cover.items()):
-    if k.startswith("digest/") and isinstance(val, set) and len(val) > 1:
-        per = {}
-        for v, r in runs.items():
-            h = r.get("cover", {}).get(k)
-            if isinstance(h, list) and h:
-                per.setdefault(h[0], []).append(v)
-        sig = "%s|transcript-differs-between-builds|%s" % (pid, k[len("digest/"):].split("/")[0])
-        if sig not in violations:
-            violations[sig] = {
+    # C19: the per-section transcript hashes must be identical in every build variant
+    for k, val in list(cover.items()):
+        if k.startswith("digest/") and isinstance(val, set) and len(val) > 1:
+            per = {}
+            for v, r in runs.items():
+                h = r.get("cover", {}).get(k)
+                if isinstance(h, list) and h:
+                    per.setdefault(h[0], []).append(v)
+            sig = "%s|transcript-differs-between-builds|%s" % (pid, k[len("digest/"):].split("/")[0])
+            if sig not in violations:
+                violations[sig] = {
+                    "signature": sig,
+                    "what": "observable results of section %s differ between builds: %s" % (k, "; ".join("%s: %s" % (",".join(vs), "%016x" % h) for h, vs in per.items())),
+                    "case": "part=digest section=%s" % k,
+                    "count": 1,
+                    "variant": sorted(runs.keys())[0],
+                    "variants": sorted(runs.keys()),
+                }
+            else:
+                violations[sig]["count"] += 1
+
+    cover_out = {}
+    for k, val in cover.items():
+        if isinstance(val, set):
+            cover_out[k] = {"size": len(val), "items": sorted(val) if len(val) <= 140 else None}
+        else:
+            cover_out[k] = {"size": val}
+
+    new_violations = []
+    known_hits = []
+    os.makedirs(os.path.join(ROOT, "replays", pid), exist_ok=True)
+    for sig, viol in sorted(violations.items()):
+        if sig in known_sigs:
+            known_hits.append((known_sigs[sig], viol))
+            continue
+        h = hashlib.sha1(sig.encode()).hexdigest()[:12]
+        path = os.path.join(ROOT, "replays", pid, h + ".json")
+        json.dump(
+            {
+                "property": pid,
                 "signature": sig,
-                "what": "observable results of section %s differ between builds: %s" % (k, "; ".join("%s: %s" % (",".join(vs), "%016x" % h) for h, vs in per.items())),
-                "case": "part=digest section=%s" % k,
-                "count": 1,
-                "variant": sorted(runs.keys())[0],
-                "variants": sorted(runs.keys()),
-            }
-        else:
-            violations[sig]["count"] += 1
+                "what": viol["what"],
+                "case": viol["case"],
+                "variant": viol["variant"],
+                "variants": viol["variants"],
+                "count": viol["count"],
+                "seed": seed,
+                "tier": tier,
+            },
+            open(path, "w"),
+            indent=1,
+        )
+        new_violations.append((sig, path, viol))
 
-cover_out = {}
-for k, val in cover.items():
-    if isinstance(val, set):
-        cover_out[k] = {"size": len(val), "items": sorted(val) if len(val) <= 140 else None}
-    else:
-        cover_out[k] = {"size": val}
+    thresholds = meta.get("min_evaluations", {})
+    min_eval = thresholds.get(tier, 1)
+    if runs and evaluations < min_eval:
+        inconclusive.append("too-few-evaluations(%d<%d)" % (evaluations, min_eval))
 
-new_violations = []
-known_hits = []
-os.makedirs(os.path.join(ROOT, "replays", pid), exist_ok=True)
-for sig, viol in sorted(violations.items()):
-    if sig in known_sigs:
-        known_hits.append((known_sigs[sig], viol))
-        continue
-    h = hashlib.sha1(sig.encode()).hexdigest()[:12]
-    path = os.path.join(ROOT, "replays", pid, h + ".json")
-    json.dump(
-        {
-            "property": pid,
-            "signature": sig,
-            "what": viol["what"],
-            "case": viol["case"],
-            "variant": viol["variant"],
-            "variants": viol["variants"],
-            "count": viol["count"],
-            "seed": seed,
-            "tier": tier,
+    evidence = {
+        "property_id": pid,
+        "tier": tier,
+        "seed": seed,
+        "level": meta["level"],
+        "coverage": {
+            "evaluations": evaluations,
+            "distinct_nontrivial": distinct,
+            "rule": meta["rule"],
+            "samples": samples if samples else ["(no sample recorded)"],
+            "exhaustive": bool(exhaustive_parts) and meta.get("exhaustive_claim", False),
+            "exhaustive_parts": exhaustive_parts,
+            "variants": per_variant,
+            "counters": counters,
+            "cover": cover_out,
+            "notes": notes,
+            "explanation": meta.get("explanation", "") or ("'exhaustive' refers only to the finite sub-spaces listed in exhaustive_parts, which this run enumerated completely; "
+                                                          "everything else (64-bit values, long histories, schedules) is sampled as described in 'rule'. Verdict: held on what was observed."),
         },
-        open(path, "w"),
-        indent=1,
+        "assumptions": meta.get("assumptions", []),
+        "wall_s": round(wall, 2),
+        "violations": len(new_violations),
+        "known_findings": [k["signature"] for k, _ in known_hits],
+        "inconclusive": inconclusive,
+        "verdict": "violated" if new_violations else ("inconclusive" if inconclusive else "held-on-what-was-observed"),
+    }
+    json.dump(evidence, open(os.path.join(ROOT, "evidence", pid + ".json"), "w"), indent=1)
+
+    for k, viol in known_hits:
+        print("KNOWN-FINDING: property=%s %s [%s]" % (pid, k["what_fails"], k["signature"]))
+    print(
+        "[check] %s %s seed=%d: %d evaluations, %d distinct non-trivial cases, variants=%s, violations=%d, known=%d, wall=%.1fs"
+        % (pid, tier, seed, evaluations, distinct, ",".join(runs.keys()), len(new_violations), len(known_hits), wall)
     )
-    new_violations.append((sig, path, viol))
+    if new_violations:
+        for sig, path, viol in new_violations:
+            print("  %s (x%d, %s): %s" % (sig, viol["count"], ",".join(viol["variants"]), viol["what"][:300]))
+        for sig, path, viol in new_violations:
+            print("VIOLATION property=%s replay=%s" % (pid, path))
+        sys.exit(1)
+    if inconclusive:
+        print("INCONCLUSIVE property=%s reason=%s" % (pid, ";".join(inconclusive)[:500]))
+        sys.exit(2)
+    sys.exit(0)
 
-thresholds = meta.get("min_evaluations", {})
-min_eval = thresholds.get(tier, 1)
-if runs and evaluations < min_eval:
-    inconclusive.append("too-few-evaluations(%d<%d)" % (evaluations, min_eval))
 
-evidence = {
-    "property_id": pid,
-    "tier": tier,
-    "seed": seed,
-    "level": meta["level"],
-    "coverage": {
-        "evaluations": evaluations,
-        "distinct_nontrivial": distinct,
-        "rule": meta["rule"],
-        "samples": samples if samples else ["(no sample recorded)"],
-        "exhaustive": bool(exhaustive_parts) and meta.get("exhaustive_claim", False),
-        "exhaustive_parts": exhaustive_parts,
-        "variants": per_variant,
-        "counters": counters,
-        "cover": cover_out,
-        "notes": notes,
-        "explanation": meta.get("explanation", ""),
-    },
-    "assumptions": meta.get("assumptions", []),
-    "wall_s": round(wall, 2),
-    "violations": len(new_violations),
-    "known_findings": [k["signature"] for k, _ in known_hits],
-    "inconclusive": inconclusive,
-    "verdict": "violated" if new_violations else ("inconclusive" if inconclusive else "held-on-what-was-observed"),
-}
-json.dump(evidence, open(os.path.join(ROOT, "evidence", pid + ".json"), "w"), indent=1)
-
-for k, viol in known_hits:
-    print("KNOWN-FINDING: property=%s %s [%s]" % (pid, k["what_fails"], k["signature"]))
-print(
-    "[check] %s %s seed=%d: %d evaluations, %d distinct non-trivial cases, variants=%s, violations=%d, known=%d, wall=%.1fs"
-    % (pid, tier, seed, evaluations, distinct, ",".join(runs.keys()), len(new_violations), len(known_hits), wall)
-)
-if new_violations:
-    for sig, path, viol in new_violations:
-        print("  %s (x%d, %s): %s" % (sig, viol["count"], ",".join(viol["variants"]), viol["what"][:300]))
-    for sig, path, viol in new_violations:
-        print("VIOLATION property=%s replay=%s" % (pid, path))
-    sys.exit(1)
-if inconclusive:
-    print("INCONCLUSIVE property=%s reason=%s" % (pid, ";".join(inconclusive)[:500]))
+try:
+    main()
+except SystemExit:
+    raise
+except Exception:  # a bug of the aggregator must never look like a verdict
+    traceback.print_exc()
+    print("INCONCLUSIVE property=%s reason=aggregator-error" % (sys.argv[1] if len(sys.argv) > 1 else "?"))
     sys.exit(2)
-sys.exit(0)
